@@ -15,7 +15,7 @@ def words(n):
 
 class C13(Prop):
     ID = "C13"
-    RULE = ("every PDA of PDA(2 states, stack {Z,X}, pushes <= 2, <= t transitions, any final set) modulo swapping the input "
+    RULE = ("every PDA of PDA(2 states, stack {Z,X}, pushes <= 2, <= t transitions, any final set) and of PDA(1 state, 3 transitions) modulo swapping the input "
             "letters (nondeterministic, epsilon moves, stack-growing epsilon cycles, no final states, start symbol never "
             "consumed are all in the family) and every grammar of CFG(2,2,2,<=3); plain names and the library's reserved "
             "fresh names; non-trivial = some accepted word")
@@ -40,10 +40,12 @@ class C13(Prop):
         adv = ["natural@reserved", "1@reserved2"]
         if tier == "quick":
             return [self.pda_layer("PDA(2,2,2,<=2)", lambda: GP.pda_cases(2, 2, 2, 0, 2), pl),
+                    self.pda_layer("PDA(1,2,2,3)", lambda: GP.pda_cases(1, 2, 2, 3, 3), pl[:2]),
                     self.pda_layer("PDA(2,2,2,<=2)/names:reserved (every 3rd)",
                                    lambda: (c for k, c in enumerate(GP.pda_cases(2, 2, 2, 0, 2)) if k % 3 == 0), adv),
                     self.cfg_layer("CFG(2,2,2,<=3)", lambda: GC.cfg_cases(2, 2, 2, 0, 3), ["natural@plain", "1@plain", "2@pda"])]
         return [self.pda_layer("PDA(2,2,2,<=2)", lambda: GP.pda_cases(2, 2, 2, 0, 2), pl + ["3@plain", "s%d@plain" % seed], rep=None),
+                self.pda_layer("PDA(1,2,2,<=4)", lambda: GP.pda_cases(1, 2, 2, 3, 4), pl[:2]),
                 self.pda_layer("PDA(2,2,2,3) every 5th", lambda: (c for k, c in enumerate(GP.pda_cases(2, 2, 2, 3, 3)) if k % 5 == 0), pl[:2]),
                 self.pda_layer("PDA(2,2,3,<=2)", lambda: GP.pda_cases(2, 2, 3, 0, 2), pl[:2]),
                 self.pda_layer("PDA(3,1,2,<=3)", lambda: GP.pda_cases(3, 1, 2, 0, 3), pl[:2], rep=None),
